@@ -151,15 +151,19 @@ where
                     target: "mdk_core::encrypted_media::manager",
                     "Epoch hint unavailable or failed, falling back to current epoch key",
                 );
-                let key = derive_encryption_key(
+                // The current epoch's key may not be available at all (a member that has been
+                // removed since can no longer export from the group): the stored secrets of the
+                // earlier epochs are tried in that case too.
+                let with_current_key = derive_encryption_key(
                     self.mdk,
                     &self.group_id,
                     &reference.scheme_version,
                     &reference.original_hash,
                     &reference.mime_type,
                     &reference.filename,
-                )?;
-                match Self::decrypt_and_verify(encrypted_data, &key, reference) {
+                )
+                .and_then(|key| Self::decrypt_and_verify(encrypted_data, &key, reference));
+                match with_current_key {
                     Ok(data) => Ok(data),
                     Err(e) => self
                         .try_decrypt_with_earlier_epochs(encrypted_data, reference)
